@@ -8,6 +8,7 @@ META = {
     "level_text": "Machine-checked proof (Coq 8.16, axiom-free) that the Gallina model of TyKind::compute_flags sets each of the 15 occurrence flags exactly when a node of the flagged kind occurs anywhere inside the type, for all terms; the model is tied to /repo on every run by comparing the stored TyData.flags of generated types (every head constructor, every child position, every flagged leaf kind) with the model evaluated in Coq.",
     "level_note": "Trusted: Coq kernel; the hand-written model (coq/Ir/Flags.v) is tied to the code only by the correspondence run (generated types, bounded depth); harness conversion sexp<->chalk_ir; STILL_FURTHER_SPECIALIZABLE masked out as the property says; HAS_TY_OPAQUE read as 'opaque alias' (pinned test).",
     "design_ref": "DESIGN.md section 4 C26",
+    "bins": ["irbin"],
     "assumptions": ["VariableKind::Const types inside dyn binders are always usize in ChalkIr and are not modelled",
                     "flag bit 15 (STILL_FURTHER_SPECIALIZABLE) is excluded from comparison"],
 }
